@@ -6,6 +6,7 @@ CONSTANTS
   MaxAny = 2
   KindSet = {"req", "any", "via", "viaimpl"}
   AllowSeed = TRUE
+  MaxLvl = 1
 INVARIANT ResolvesToLatest
 INVARIANT EarlierNotExecuted
 INVARIANT OtherContextsSilent
